@@ -48,6 +48,7 @@ RunResult run_plan(const Plan &plan, const std::string &image_dir, bool keep_tra
   kern.knobs.pipe_cap = (size_t)kn.geti("pipe_cap", 65536);
   kern.knobs.pipe_buf = (size_t)kn.geti("pipe_buf", 4096);
   kern.knobs.ino_policy = (int)kn.geti("ino_policy", 0);
+  if (kn.has("ino_base")) kern.next_ino = (uint64_t)kn.geti("ino_base", 100);   // file systems with 64-bit inode numbers (XFS inode64, btrfs)
   kern.knobs.tick_p = kn.getd("tick_p", 0.0);
   kern.knobs.stick = kn.getd("stick", 0.7);
   kern.knobs.split_p = kn.getd("split_p", 0.3);
